@@ -38,7 +38,12 @@ Inductive tstmt : Type :=
 | TCallGet (x : name) (i : Z)                 (* r = f(x, i); mon.write(r) *)
 | TGetLen (x y : name) (sg : bool) (k : Z)    (* mon.write(x[len(y) + k])  (sg)   /   mon.write(x[k - len(y)]) *)
 | TSelf (x : name)                            (* x = x *)
-| TPerm (xs ys : list name).                  (* x1, .., xn = y1, .., yn *)
+| TPerm (xs ys : list name)                   (* x1, .., xn = y1, .., yn *)
+| TCallLen (x p y : name) (sg : bool) (k : Z). (* r = h(x); mon.write(r)   with   def h(P): return P[len(Y) + k]  (sg)  /
+                                                 return P[k - len(Y)],  defined right in front of `while True:` (one function per
+                                                 (p, y, sg, k), possibly called at several places);  the parameter P
+                                                 carries the list name p (it may SHADOW a global list of that name), Y is the
+                                                 parameter itself (y = p) or the global list y *)
 
 (* ------------------------------------------------------------------ the parse-time copies *)
 Definition tcopy := list (option Z).             (* None = placeholder of a run-time value *)
@@ -86,7 +91,22 @@ Definition track1 (gated : bool) (t : tenv) (s : tstmt) : tenv :=
       match t_cur t x with Some cur => t_set x (Some (t_remove cur (targ_val t a))) t | None => t end
   | TSelf x => if gated then t else t_set x None t
   | TPerm xs _ => if gated then t else t_untrack xs t
-  | TGet _ _ | TCallGet _ _ | TGetLen _ _ _ _ => t
+  | TGet _ _ | TCallGet _ _ | TGetLen _ _ _ _ | TCallLen _ _ _ _ _ => t
+  end.
+
+(* ------------------------------------------------------------------ function scope *)
+(* _parse_function (parser.py 1585-1675): the body of a function is parsed in a context that starts as a copy of the
+   constant environment of the place where it is parsed, in which every parameter name is OVERWRITTEN by a run-time
+   placeholder (`child_ctx["vars"][arg.arg] = _ExprStr(arg.arg)`): a parameter shadows a global of the same name, a global
+   that is not shadowed keeps its copy.  The variant for list arguments is parsed ON DEMAND (_ensure_function_variant,
+   parser.py 927-960): at the FIRST call in source order whose argument types ask for it, with the environment [td] of that
+   call site, and never again. *)
+Definition fn_env (td : tenv) (params : list name) : tenv := t_untrack params td.
+
+Definition same_fn (a b : tstmt) : bool :=
+  match a, b with
+  | TCallLen _ p y sg k, TCallLen _ p' y' sg' k' => Z.eqb p p' && Z.eqb y y' && Bool.eqb sg sg' && Z.eqb k k'
+  | _, _ => false
   end.
 
 (* ------------------------------------------------------------------ programs *)
@@ -97,6 +117,13 @@ Definition is_gated (g : option Z) : bool := match g with Some _ => true | None 
 Definition taken (g : option Z) (c : Z) : bool := match g with Some t => (t <? c)%Z | None => true end.
 
 Definition len_index (sg : bool) (n k : Z) : Z := if sg then (n + k)%Z else (k - n)%Z.
+
+(* the environment the function called by [s] was parsed in: the copies in front of its first call in the block *)
+Fixpoint first_env (t : tenv) (ss : list gstmt) (s : tstmt) : tenv :=
+  match ss with
+  | [] => t
+  | (s1, g) :: r => if same_fn s1 s then t else first_env (track1 (is_gated g) t s1) r s
+  end.
 
 (* the source statement of DListProg once the run-time pieces are known: [leny] = the value of len(y),
    [c] = the run-time scalar of this pass *)
@@ -115,9 +142,16 @@ Definition to_s (leny c : Z) (s : tstmt) : sstmt :=
   | TGetLen x _ sg k => SGet x (len_index sg leny k)
   | TSelf x => SVar x x
   | TPerm xs ys => STuple xs (map RVar ys)
+  | TCallLen x _ _ sg k => SCallGet x (len_index sg leny k)
   end.
 
-Definition len_name (s : tstmt) : name := match s with TGetLen _ y _ _ => y | _ => 0%Z end.
+(* the list whose length CPython takes: for the call h(x) the argument x when Y is the parameter, else the global y *)
+Definition len_name (s : tstmt) : name :=
+  match s with
+  | TGetLen _ y _ _ => y
+  | TCallLen x p y _ _ => if Z.eqb y p then x else y
+  | _ => 0%Z
+  end.
 
 (* the emitted form (parser's choice, DListProg.elab1) and the declared names afterwards *)
 Definition t_lstmt (in_loop : bool) (decl : list name) (s : tstmt) (leny c : Z) : stmt :=
@@ -149,8 +183,21 @@ Definition f_len (t : tenv) (st : fstate) (y : name) : Z :=
   | None => Z.of_nat (list_len (f_lookup st y))         (* __redu_len(y) *)
   end.
 
-(* executing a block: [t], [decl] = the parser's knowledge in front of each statement (the same in every pass) *)
-Fixpoint tf_block (in_loop : bool) (c : Z) (t : tenv) (decl : list name) (st : fstate) (ss : list gstmt)
+(* the value len() has in the statement: folded against the copies of the enclosing block, resp. - inside the function
+   body - against the function's own environment (the copies in front of the function's first call, parameters unfolded) *)
+Definition s_len (fe : tstmt -> tenv) (t : tenv) (st : fstate) (s : tstmt) : Z :=
+  match s with
+  | TCallLen x p y _ _ =>
+      match t_cur (fn_env (fe s) [p]) y with
+      | Some cur => Z.of_nat (length cur)
+      | None => Z.of_nat (list_len (f_lookup st (if Z.eqb y p then x else y)))
+      end
+  | _ => f_len t st (len_name s)
+  end.
+
+(* executing a block: [t], [decl] = the parser's knowledge in front of each statement (the same in every pass);
+   [fe] = for a call, the copies in front of the first call of the same function *)
+Fixpoint tf_block (in_loop : bool) (c : Z) (fe : tstmt -> tenv) (t : tenv) (decl : list name) (st : fstate) (ss : list gstmt)
   : res (fstate * list Z) :=
   match ss with
   | [] => Safe (st, [])
@@ -158,15 +205,15 @@ Fixpoint tf_block (in_loop : bool) (c : Z) (t : tenv) (decl : list name) (st : f
       let t1 := track1 (is_gated g) t s in
       let d1 := t_decl in_loop decl s in
       if taken g c then
-        do x <- f_exec in_loop st (t_lstmt in_loop decl s (f_len t st (len_name s)) c);
+        do x <- f_exec in_loop st (t_lstmt in_loop decl s (s_len fe t st s) c);
         let '(st1, o1) := x in
-        do y <- tf_block in_loop c t1 d1 st1 r; let '(st2, o2) := y in
+        do y <- tf_block in_loop c fe t1 d1 st1 r; let '(st2, o2) := y in
         Safe (st2, o1 ++ o2)
-      else tf_block in_loop c t1 d1 st r
+      else tf_block in_loop c fe t1 d1 st r
   end.
 
 Definition tf_pass (c : Z) (t : tenv) (decl : list name) (body : list gstmt) (st : fstate) : res (fstate * list Z) :=
-  do a <- tf_block true c t decl st body; let '(st1, o) := a in
+  do a <- tf_block true c (first_env t body) t decl st body; let '(st1, o) := a in
   Safe (mkf (f_heap st1) (f_glob st1) [], o).
 
 Fixpoint tf_passes (t : tenv) (decl : list name) (body : list gstmt) (st : fstate) (cs : list Z) : res fstate :=
@@ -178,13 +225,14 @@ Fixpoint tf_passes (t : tenv) (decl : list name) (body : list gstmt) (st : fstat
 (* setup() then one pass of loop() per run-time value *)
 Definition run_fw_t (setup : list tstmt) (body : list gstmt) (cs : list Z) : res fstate :=
   let '(t0, d0) := track false [] [] (ungated setup) in
-  do a <- tf_block false 0 [] [] f_init (ungated setup); tf_passes t0 d0 body (fst a) cs.
+  do a <- tf_block false 0 (fun _ => []) [] [] f_init (ungated setup); tf_passes t0 d0 body (fst a) cs.
 
 (* ------------------------------------------------------------------ CPython: len() of the list as it is *)
 Definition p_len (pst : pstate) (y : name) : pres Z :=
   pdo o <- p_ref pst y; POk (Z.of_nat (length (p_obj pst o))).
 
-Definition needs_len (s : tstmt) : bool := match s with TGetLen _ _ _ _ => true | _ => false end.
+Definition needs_len (s : tstmt) : bool :=
+  match s with TGetLen _ _ _ _ | TCallLen _ _ _ _ _ => true | _ => false end.
 
 Definition tp_stmt (in_loop : bool) (c : Z) (decl : list name) (pst : pstate) (s : tstmt) : pres stmt :=
   if needs_len s
@@ -224,7 +272,7 @@ Definition run_py_t (setup : list tstmt) (body : list gstmt) (cs : list Z) : pre
    - the copies have the same lengths at the end of the loop body as at its beginning (a copy that exists when the
      loop is entered still exists at its end). *)
 Definition is_read (s : tstmt) : bool :=
-  match s with TGet _ _ | TCallGet _ _ | TGetLen _ _ _ _ => true | _ => false end.
+  match s with TGet _ _ | TCallGet _ _ | TGetLen _ _ _ _ | TCallLen _ _ _ _ _ => true | _ => false end.
 
 Definition is_decl (s : tstmt) : bool :=
   match s with TDeclLit _ _ | TDeclComp _ _ => true | _ => false end.
@@ -241,11 +289,25 @@ Definition remove_hits (t : tenv) (s : tstmt) : bool :=
 
 Definition mem (x : name) (l : list name) : bool := existsb (Z.eqb x) l.
 
-Definition t_use_ok (decl : list name) (t : tenv) (sg : gstmt) : bool :=
+(* a global list read by len() inside a function body: the length folded at the function's first call is the length of the
+   copy at this call *)
+Definition fold_agrees (td t : tenv) (y : name) : bool :=
+  match t_cur td y with
+  | None => true
+  | Some c0 => match t_cur t y with Some c1 => length c1 =? length c0 | None => false end
+  end.
+
+Definition is_call_len (s : tstmt) : bool := match s with TCallLen _ _ _ _ _ => true | _ => false end.
+
+Definition t_use_ok (fe : tstmt -> tenv) (decl : list name) (t : tenv) (sg : gstmt) : bool :=
   let '(s, g) := sg in
   negb (is_decl s) && use_ok decl (t_lstmt true decl s 0 0) &&
   (negb (is_gated g) || is_read s) && remove_hits t s &&
-  match s with TGetLen _ y _ _ => mem y decl | _ => true end.
+  match s with
+  | TGetLen _ y _ _ => mem y decl
+  | TCallLen _ p y _ _ => Z.eqb y p || (mem y decl && fold_agrees (fe s) t y)
+  | _ => true
+  end.
 
 Fixpoint t_setup_ok (t : tenv) (decl : list name) (ss : list gstmt) : bool :=
   match ss with
@@ -253,14 +315,14 @@ Fixpoint t_setup_ok (t : tenv) (decl : list name) (ss : list gstmt) : bool :=
   | (s, g) :: r =>
       (match s with
        | TDeclLit x _ | TDeclComp x _ => negb (mem x decl) && negb (is_gated g)
-       | _ => t_use_ok decl t (s, g) && negb (is_gated g)
+       | _ => t_use_ok (fun _ => []) decl t (s, g) && negb (is_gated g) && negb (is_call_len s)    (* no call in front of the `def` *)
        end) && t_setup_ok (track1 (is_gated g) t s) (t_decl false decl s) r
   end.
 
-Fixpoint t_body_ok (t : tenv) (decl : list name) (ss : list gstmt) : bool :=
+Fixpoint t_body_ok (fe : tstmt -> tenv) (t : tenv) (decl : list name) (ss : list gstmt) : bool :=
   match ss with
   | [] => true
-  | (s, g) :: r => t_use_ok decl t (s, g) && t_body_ok (track1 (is_gated g) t s) decl r
+  | (s, g) :: r => t_use_ok fe decl t (s, g) && t_body_ok fe (track1 (is_gated g) t s) decl r
   end.
 
 Definition t_compat (t0 t1 : tenv) : bool :=
@@ -274,7 +336,7 @@ Definition t_compat (t0 t1 : tenv) : bool :=
 
 Definition len_ok (setup : list tstmt) (body : list gstmt) : bool :=
   let '(t0, d0) := track false [] [] (ungated setup) in
-  t_setup_ok [] [] (ungated setup) && t_body_ok t0 d0 body && t_compat t0 (fst (track true t0 d0 body)).
+  t_setup_ok [] [] (ungated setup) && t_body_ok (first_env t0 body) t0 d0 body && t_compat t0 (fst (track true t0 d0 body)).
 
 (* ------------------------------------------------------------------ witnesses *)
 Local Open Scope Z_scope.
@@ -308,3 +370,17 @@ Definition len_ok_body : list gstmt :=
   zip_gates [TRemove 0 (TRt 0); TAppend 0 (TRt 0); TGetLen 0 0 true (-1); TGetLen 0 0 false 0;
              TAppend 0 (TElem 0 0); TGetLen 0 1 true 0; TRemove 0 (TElem 0 (-1)); TGetLen 1 1 true (-2)]
             [None; None; None; Some 1%Z].
+
+(* a = [1, 2, 3];  def h(P): return P[len(a) - 1]
+   while True: r = h(a); mon.write(r); a.remove(c); r = h(a); mon.write(r); a.append(c)   c = 2
+   len(a) inside the function is folded where the function is parsed: at its FIRST call (3); at the second call the
+   list has 2 elements *)
+Definition stale_def_setup : list tstmt := [TDeclLit 0 [1; 2; 3]%Z].
+Definition stale_def_body : list gstmt :=
+  ungated [TCallLen 0 5 0 true (-1); TRemove 0 (TRt 0); TCallLen 0 5 0 true (-1); TAppend 0 (TRt 0)].
+
+(* inside the guard: the parameter carries the name of the global list a = [1, 2, 3] and the function is called with
+   the shorter list b = [7]: len(P) is the run-time length of the ARGUMENT (1), not the length of a's copy (3) *)
+Definition shadow_ok_setup : list tstmt := [TDeclLit 0 [1; 2; 3]%Z; TDeclLit 1 [7]%Z].
+Definition shadow_ok_body : list gstmt :=
+  ungated [TCallLen 1 0 0 true (-1); TCallLen 0 0 0 false 0; TCallLen 1 1 0 true (-3); TCallLen 0 7 7 true (-1)].
